@@ -14,7 +14,6 @@ import json
 import os
 import signal
 import sys
-import threading
 import time
 import traceback
 
@@ -106,23 +105,56 @@ def run_op(op, c1, c2):
     return out
 
 
-_progress = dict(t=time.time(), budget=60.0)
+class Monitor:
+    """A forked child that kills this worker (SIGKILL) when one op overruns its budget by 10 s.
+    Compiled (njit) loops hold the GIL and ignore SIGALRM, so neither a signal handler nor a
+    watchdog thread can stop them.  The op in flight is recorded in <out>.hang for the report."""
 
+    def __init__(self, hang_path):
+        r, w = os.pipe()
+        self.parent = os.getpid()
+        pid = os.fork()
+        if pid == 0:
+            os.close(w)
+            self._child(r, hang_path)
+            os._exit(0)
+        os.close(r)
+        self.w = w
 
-def _watchdog():
-    """compiled (njit) loops cannot be interrupted by SIGALRM: if one op overruns its budget by
-    10 s the whole worker exits with code 3; the parent then re-runs the cases one by one"""
-    while True:
-        time.sleep(1.0)
-        if time.time() - _progress["t"] > _progress["budget"] + 10.0:
-            os._exit(3)
+    def _child(self, r, hang_path):
+        import select
+        budget, label, buf = 120.0, "startup", b""
+        while True:
+            ready, _, _ = select.select([r], [], [], budget + 10.0)
+            if not ready:
+                try:
+                    with open(hang_path, "w") as fh:
+                        fh.write(label)
+                    os.kill(self.parent, signal.SIGKILL)
+                finally:
+                    return
+            data = os.read(r, 65536)
+            if not data:
+                return
+            buf += data
+            while b"\n" in buf:
+                line, buf = buf.split(b"\n", 1)
+                try:
+                    msg = json.loads(line)
+                    budget, label = float(msg["budget"]), json.dumps(msg["label"])
+                except Exception:  # noqa
+                    pass
+
+    def beat(self, budget, label):
+        os.write(self.w, (json.dumps(dict(budget=budget, label=label)) + "\n").encode())
 
 
 def main():
     payload = json.load(open(sys.argv[1]))
+    mon = Monitor(sys.argv[2] + ".hang")
     res = []
-    threading.Thread(target=_watchdog, daemon=True).start()
-    for case in payload["cases"]:
+    for ci, case in enumerate(payload["cases"]):
+        mon.beat(120.0, dict(case=ci, op="build"))
         try:
             c1 = NW.build(case["c1"])
             c2 = c1 if case.get("same_object") else NW.build(case["c2"])
@@ -131,10 +163,10 @@ def main():
             continue
         rr = []
         for op in case["ops"]:
-            _progress["t"], _progress["budget"] = time.time(), float(op.get("timeout", 20))
+            mon.beat(float(op.get("timeout", 20)) + 5.0, dict(case=ci, op=op))
             rr.append(run_op(op, c1, c2))
-        _progress["t"], _progress["budget"] = time.time(), 60.0
         res.append(rr)
+    mon.beat(120.0, dict(case=-1, op="write"))
     json.dump(dict(results=res), open(sys.argv[2], "w"))
 
 
